@@ -134,7 +134,7 @@ Fixpoint find_delim (pre_rev : bytes) (post : bytes) (has_escaped : bool) : opti
     if negb (beq c dollar) then find_delim pre' (c :: post) has_escaped
     else match pre' with
          | p :: _ => if negb has_escaped && beq p bslash then find_delim pre' (c :: post) true
-                     else Some (rev pre', post, has_escaped)
+                     else Some (rev' pre', post, has_escaped)
          | [] => Some ([], post, has_escaped)
          end
   end.
@@ -145,7 +145,7 @@ Definition parse_rule_text (text : bytes) : res (bytes * bytes * bool) :=
   let t := if wl then skipn 2 text else text in
   if has_prefix $"/" t && has_suffix $"/" t && negb (contains $"replace=" t) then Ok (t, [], wl) else
   (* idx starts at len-2: the last byte is never a delimiter *)
-  match rev t with
+  match rev' t with
   | [] => Ok (t, [], wl)
   | lastc :: pre_rev =>
     match find_delim pre_rev [lastc] false with
@@ -163,7 +163,7 @@ Definition strip_tilde (d : bytes) : bool * bytes :=
 (* loadDomains *)
 Fixpoint load_domains_aux (l : list bytes) (p r : list bytes) : option (list bytes * list bytes) :=
   match l with
-  | [] => Some (rev p, rev r)
+  | [] => Some (rev' p, rev' r)
   | d0 :: l' =>
     let '(restricted, d) := strip_tilde d0 in
     if negb (is_domain_name d) && negb (has_suffix $".*" d) then None
@@ -175,7 +175,7 @@ Definition load_domains (v : bytes) (sep : byte) : option (list bytes * list byt
 (* loadDNSTypes *)
 Fixpoint load_dnstypes_aux (l : list bytes) (p r : list N) : option (list N * list N) :=
   match l with
-  | [] => Some (rev p, rev r)
+  | [] => Some (rev' p, rev' r)
   | s0 :: l' =>
     if isnil s0 then None else
     let '(restricted, s) := strip_tilde s0 in
@@ -192,7 +192,7 @@ Definition is_valid_ctag (s : bytes) : bool :=
   forallb (fun c => is_lower c || is_digit c || beq c "_"%byte) s.
 Fixpoint load_ctags_aux (l : list bytes) (p r : list bytes) : option (list bytes * list bytes) :=
   match l with
-  | [] => Some (sort_by bytes_leb (rev p), sort_by bytes_leb (rev r))
+  | [] => Some (sort_by bytes_leb (rev' p), sort_by bytes_leb (rev' r))
   | d0 :: l' =>
     let '(restricted, d) := strip_tilde d0 in
     if negb (is_valid_ctag d) then None
@@ -417,8 +417,8 @@ Fixpoint has_complex_escape (s : bytes) : bool :=
 Definition regex_specials : bytes := $"\^$*+?.()|[]{}".
 Fixpoint split_specials (s : bytes) (cur : bytes) : list bytes :=
   match s with
-  | [] => [rev cur]
-  | x :: s' => if mem_byte x regex_specials then rev cur :: split_specials s' [] else split_specials s' (x :: cur)
+  | [] => [rev' cur]
+  | x :: s' => if mem_byte x regex_specials then rev' cur :: split_specials s' [] else split_specials s' (x :: cur)
   end.
 Definition longest (parts : list bytes) : bytes :=
   fold_left (fun best p => if (length best <? length p)%nat then p else best) parts [].
